@@ -322,6 +322,11 @@ def run(ctx):
     for n in notes[:6]:
         print("NOTE: property=C09 %s" % n, flush=True)
 
+    if not ctx.violations:
+        # rpc/v10/events.go (and v8/v9): ranges, continuation tokens, chunking and the pre-confirmed part of a query
+        # are specified in RpcEvents.tla (G03) and replayed through the real RPC stack
+        ctx.include("G03", accept=lambda k: k.startswith(("rpc2:getEvents", "crash:")),
+                    why="starknet_getEvents through jsonrpc.Server on v0.8/v0.9/v0.10 incl. pre-confirmed blocks and tokens")
     ctx.assumptions += [
         "a block's bloom filter is modelled as the exact set of its atoms: hash-collision false positives "
         "(probability ~1e-13 per block and key here) are not modelled; stale bits are modelled exactly",
